@@ -80,7 +80,7 @@ def random_exec(rng, nops, big):
                     L.append("construct %d %d %d" % (o, p, m)); objs[o] = dict(open=True, path=p, mode=m, pos=size[p] if m == 5 else 0, lastio=None)
                     if m in (2, 4): size[p] = 0
             elif r < 0.9:
-                L.append(rng.choice(["read %d 3", "write %d 1 3", "tell %d", "eof %d", "flush %d", "close %d", "seek %d 0 0", "withend %d", "print %d 5", "destruct %d"]) % o)
+                L.append(rng.choice(["read %d 3", "write %d 1 3", "tell %d", "eof %d", "flush %d", "close %d", "seek %d 0 0", "bigseek %d 4096 7", "withend %d", "print %d 5", "destruct %d"]) % o)
             else:
                 L.append("del %d" % o); del objs[o]
             continue
@@ -97,6 +97,8 @@ def random_exec(rng, nops, big):
         elif r < 0.70:
             org = rng.choice([0, 1, 2]); base = [0, h["pos"], size[p]][org]
             tgt = rng.randint(0, size[p]); L.append("seek %d %d %d" % (o, tgt - base, org)); h["pos"] = tgt; h["lastio"] = None
+        elif r < 0.72:
+            L.append("bigseek %d %d %d" % (o, rng.choice([2047, 2048, 4095, 4096, 4097, 1 << 16]), rng.choice([0, 7, (1 << 20) - 1]))); h["lastio"] = None
         elif r < 0.78:
             L.append(rng.choice(["tell %d", "eof %d", "flush %d"]) % o)
             if L[-1].startswith("flush"): h["lastio"] = None
